@@ -21,6 +21,9 @@ CHECKS = {
          "TLA+ invariant on TLC-validated implementation traces"),
  "C04": ("model_checking", "C04_* clauses after the first terminal status + every status request probed in every reachable "
          "state (rejections must be pure).", "6 C04", "TLA+ action clauses on TLC-validated implementation traces"),
+ "C06": ("model_checking", "Binding monitor (value, publisher, lineage) in Props computes the expected context of every offered task, every "
+         "transition decision, every published delta and the output; Spec B model-checked with it; behaviours replayed.", "6 C06",
+         "TLA+ data-flow monitor on TLC-validated implementation traces + TLC model checking of Spec B"),
  "C07": ("model_checking", "Join generation monitor (arrivals, fired, started) in Props; C07_safe/once/unreachable.", "6 C07",
          "TLA+ monitor on TLC-validated implementation traces"),
  "C05": ("model_checking", "Live run vs the same history with deserialize(serialize()) inserted after every call / random subsets / single "
@@ -34,6 +37,10 @@ CHECKS = {
          "TLA+ step clauses + relational twin check, TLC model checking of Spec B"),
  "C10": ("model_checking", "C10_* clauses with cancel requested at every position (from running, pausing, paused, resuming); Spec B model-checked with them.", "6 C10",
          "TLA+ clauses on TLC-validated implementation traces + TLC model checking of Spec B"),
+ "C11": ("fault_enumeration", "12 expression positions x 4 failure kinds x 2 languages on a fork/join host; C11_* clauses (no escape, recorded "
+         "with task/transition, workflow failed, nothing offered afterwards) on every call; Spec B models when each position is evaluated; "
+         "conformance checked on the same traces.", "6 C11",
+         "fault enumeration + TLA+ clauses on TLC-validated implementation traces + Spec B conformance"),
  "C12": ("model_checking", "With-items monitor (items started / last status per execution) in Props; C12_* clauses on every call; Spec B "
          "(with-items window, item-event contextualisation) model-checked with them and its behaviours replayed.", "6 C12",
          "TLA+ monitor on TLC-validated implementation traces + TLC model checking of Spec B"),
